@@ -173,6 +173,22 @@ def fixed_cases(tier):
             base["sched"] = {"mode": r2.choice(list(MODES)), "policy": "random", "workers": 3,
                              "stall_p": 0.5, "seed": r2.getrandbits(32)}
             out.append(base)
+    # many partitions that each hold many statistics (two-digit partition AND position indices)
+    for kind in KINDS:
+        for N, k in ((150, 12), (170, 13)) if tier == "quick" else ((150, 12), (170, 13), (400, 20), (1200, 101)):
+            if kind != "ivector" and N > 400:
+                continue
+            r2 = random.Random(f"fixed12grid/{kind}/{N}/{k}")
+            base = gen_case(r2, "quick", kind=kind, N=N, nc=r2.randint(2, 4))
+            base["cfg"]["it"] = 1
+            base["cfg"]["rU"], base["cfg"]["rV"] = 1, 1
+            base["pre"] = None
+            base["xmodes"] = False
+            base["bagform"] = "plain"
+            base["layout"] = {"type": "from_sequence", "npartitions": k}
+            base["sched"] = {"mode": r2.choice(list(MODES)), "policy": "random", "workers": 3,
+                             "stall_p": 0.5, "seed": r2.getrandbits(32)}
+            out.append(base)
     # many statistics / partitions around powers of two
     counts = [15, 17, 31, 33, 65] if tier == "quick" else \
         [15, 16, 17, 31, 32, 33, 63, 64, 65, 100, 129, 257, 513, 1025]
